@@ -489,6 +489,9 @@ func checkFiles(c Case, texts []string, v *vcase.Verdict) string {
 		p := realPaths[ti]
 		if c.NoLabels {
 			v.Label("labels_disabled")
+		} else if i < len(c.Labels) && c.Labels[i] == "\x00empty" {
+			p = "=" + p // an explicit empty label
+			v.Label("empty_label")
 		} else if i < len(c.Labels) && c.Labels[i] != "" {
 			p = c.Labels[i] + "=" + p
 			v.Label("labelled_path")
@@ -572,7 +575,11 @@ func checkFiles(c Case, texts []string, v *vcase.Verdict) string {
 				pos++
 			}
 		}
-		if msg := compare(reals[i], mine, want, map[string]string{".file": labels[i]}); msg != "" {
+		internal := map[string]string{".file": labels[i]}
+		if labels[i] == "" {
+			internal = map[string]string{} // an empty value is "not set", for tool-supplied keys too
+		}
+		if msg := compare(reals[i], mine, want, internal); msg != "" {
 			return fmt.Sprintf("path %d (%s): %s", i, args[i], msg)
 		}
 	}
@@ -622,7 +629,7 @@ func Gen(t *rapid.T) Case {
 		np := rapid.IntRange(1, 5).Draw(t, "npaths")
 		for i := 0; i < np; i++ {
 			c.Paths = append(c.Paths, rapid.IntRange(0, ntexts-1).Draw(t, "pathidx"))
-			c.Labels = append(c.Labels, rapid.SampledFrom([]string{"", "", "", "old", "new", "x#0", "é"}).Draw(t, "label"))
+			c.Labels = append(c.Labels, rapid.SampledFrom([]string{"", "", "", "old", "new", "x#0", "é", "\x00empty"}).Draw(t, "label"))
 		}
 		c.NoLabels = rapid.IntRange(0, 3).Draw(t, "nolabels") == 0
 		c.EqNames = rapid.IntRange(0, 2).Draw(t, "eqnames") == 0
